@@ -238,3 +238,47 @@ func VerifC20EstimationSeries() {
 		}
 	}
 }
+
+// C20 estimations after the snapshot history was RESIZED: node "gone" is in the map of epoch 1 only, "node"
+// in every map, "late" from epoch 2 on. At epoch 2 the Alphabet sets the snapshot count to a symbolic 2..4
+// (2 is the current ring index), then ticks to epoch 3. The "previous epoch's network map" an estimation is
+// checked against is the map of epoch 2 whatever the count: node and late are accepted, gone and an outsider
+// are refused.
+func VerifC20EstimationsAfterResize() {
+	deployFS()
+	vAssume(alphaOn("netmap", "setConfig", []byte("id"), []byte("ContainerFee"), 0))
+	owner := vAcct("owner")
+	blob := cnrBlob("c", 0, owner)
+	vSign(vAlphabetAcct(), true)
+	ok, _ := vInvoke("container", "put", blob, vBytes("sig", 64), vKey("owner"), []byte{})
+	vAssume(ok)
+	cid := vSha256(blob)
+	vAssume(alphaOn("netmap", "addPeerIR", vBlob("node", 1)))
+	vAssume(alphaOn("netmap", "addPeerIR", vBlob("gone", 3)))
+	vAssume(alphaOn("netmap", "newEpoch", 1))
+	vAssume(alphaOn("netmap", "updateStateIR", 2, vKey("gone"))) // offline: leaves before epoch 2
+	vAssume(alphaOn("netmap", "addPeerIR", vBlob("late", 2)))
+	vAssume(alphaOn("netmap", "newEpoch", 2))
+	count := vInt("snapshotCount")
+	// with a single snapshot kept there is no "previous epoch's map" to ask for (netmap.snapshot(1) answers
+	// "incorrect diff") and nobody can announce anything: counts from 2 on
+	vAssume(count >= 2 && count <= 4)
+	resized := alphaOn("netmap", "updateSnapshotCount", count)
+	vRequire(resized, "snapshot-count-changed")
+	vAssume(alphaOn("netmap", "newEpoch", 3))
+	size := vInt("size")
+	vAssume(size >= 0 && size <= 1000000)
+	vAssert(!tryPutSize("gone", cid, size), "C20/estimation-only-from-nodes-of-the-previous-epoch-map")
+	vAssert(!tryPutSize("outsider", cid, size), "C20/estimation-only-from-nodes-of-the-previous-epoch-map")
+	okNode, okLate := tryPutSize("node", cid, size), tryPutSize("late", cid, size)
+	vAssert(okNode && okLate, "C20/operation-succeeds-exactly-when-documented")
+	vCoverIf(resized && count == 2, "count-set-to-the-ring-index")
+	got := sizesOf(3, cid)
+	vAssert(len(got) == 2 || !(okNode && okLate), "C20/estimations-returned-exactly-for-the-queried-epoch")
+}
+
+func tryPutSize(tag string, cid []byte, size int) bool {
+	vSign(vAcct(tag), true)
+	okp, _ := vInvoke("container", "putContainerSize", 3, cid, size, vKey(tag))
+	return okp
+}
